@@ -16,6 +16,8 @@ def register(prop, J):
              # (appended after the v2 jobs: the position of a job determines its derived seeds)
              J("excl-v1", "v1", "codecprops", "^TestC07", checks=(8000, 1800000), shards=(4, 16), prepare="prepare_codec",
                extra_pkgs=["dyn", "gendrv"], timeout=(900, 3000)),
+             J("excl-wire-v1", "v1", "resprops", "^TestC07", checks=(4000, 600000), shards=(4, 16), prepare="prepare_resources",
+               extra_pkgs=["dyn", "gendrv"], timeout=(1200, 3000)),
          ],
          level_text="generated (value, exclusion spec) pairs against an independent prefix-matching model: the encoder must omit "
                     "exactly the matching subtrees, the decoder must reject exactly the documents carrying a matching value and must "
